@@ -1,6 +1,7 @@
 //! vharness — runs the real srtla_send code on generated inputs and writes Coq case
 //! files (inputs + observed implementation behaviour) for the per-property evaluators.
 mod common;
+mod core_ops;
 include!(concat!(env!("OUT_DIR"), "/registry.rs"));
 
 use std::path::PathBuf;
